@@ -10,6 +10,8 @@ structure Drv where
   rawReg : Option (List (List Nat × Nat))
   saved : ChainSt
   reps : List Replica
+  repReg : Option (List (List Nat × Nat))
+  lastBlock : Option Block
 
 def C := drvCrypto
 
@@ -20,7 +22,7 @@ def mkCfg (maxTxs : Nat) (am : Bool) (mm : Nat) : Config :=
 
 def drvInit : Drv :=
   { node := initNode C (mkCfg 1000 true 10) 0, raw := initChain C [] [1] 0, rawReg := none,
-    saved := initChain C [] [1] 0, reps := [] }
+    saved := initChain C [] [1] 0, reps := [], repReg := none, lastBlock := none }
 
 def parseTx (s : String) : Option Tx :=
   match s.toList with
@@ -31,6 +33,14 @@ def parseTx (s : String) : Option Tx :=
       | _, _ => none
     | _ => none
   | 'd' :: rest => (String.ofList rest).toNat?.map Tx.del
+  -- `c<key>:<expected or ->:<new>`
+  | 'c' :: rest =>
+    match (String.ofList rest).splitOn ":" with
+    | [k, e, v] => match k.toNat?, v.toNat? with
+      | some k, some v =>
+        if e = "-" then some (.cas k none v) else e.toNat?.map fun e => .cas k (some e) v
+      | _, _ => none
+    | _ => none
   | _ => none
 
 def parseTxs (s : String) : Option (List Tx) :=
@@ -39,6 +49,8 @@ def parseTxs (s : String) : Option (List Tx) :=
 def showTx : Tx → String
   | .put k v => s!"p{k}:{v}"
   | .del k => s!"d{k}"
+  | .cas k none v => s!"c{k}:-:{v}"
+  | .cas k (some e) v => s!"c{k}:{e}:{v}"
 
 def insertStr (x : String) : List String → List String
   | [] => [x]
@@ -86,8 +98,26 @@ def blocksPresent (s : List (SKey × SVal)) : List Nat :=
     | .block h => some h
     | _ => none
 
+def showMeta (s : List (SKey × SVal)) : String :=
+  match loadHeight s with
+  | some h => toString h
+  | none => "none"
+
 def showState (reg : Option (List (List Nat × Nat))) (c : ChainSt) : String :=
   s!"h={c.height} verify={showVerify (verifyChain C reg c)} blocks={showNats (blocksPresent c.store)} data={showList (dataImage c.store)}"
+
+def showHistory (l : List (Nat × Tx)) : String :=
+  showList (l.map fun p => s!"{p.1}:{showTx p.2}")
+
+/-- the store calls of `apply_operations_to_store` for one uninterrupted commit: one put / delete per operation,
+    a `CompareAndSwap` reads the key and writes it only when the comparison succeeds -/
+def traceOps : List (SKey × SVal) → List Tx → List String
+  | _, [] => []
+  | s, t :: r =>
+    (match t with
+      | .put k _ => [s!"put:{k}"]
+      | .del k => [s!"del:{k}"]
+      | .cas k e _ => if dataAt s k = e then [s!"get:{k}", s!"put:{k}"] else [s!"get:{k}"]) ++ traceOps (applyTx s t) r
 
 /-- the symbolic mutations of one stored block; mirrors `mutate_block` of the harness -/
 def tamperBlock (b : Block) (field variant : String) : Option Block :=
@@ -115,6 +145,7 @@ def tamperBlock (b : Block) (field variant : String) : Option Block :=
     match b.txs with
     | .put k v :: r => some { b with txs := .put k (v + 1) :: r }
     | .del k :: r => some { b with txs := .put k 1 :: r }
+    | .cas k e v :: r => some { b with txs := .cas k e (v + 1) :: r }
     | [] => none
   | "transactions", "push_new" => some { b with txs := b.txs ++ [.put 999 999] }
   | "transactions", "swap_first_two" =>
@@ -124,14 +155,13 @@ def tamperBlock (b : Block) (field variant : String) : Option Block :=
   | "signatures", _ => some { b with sigs := b.sigs ++ [1] }
   | _, _ => none
 
-def mkRawBlock (d : Drv) (hsel prev root sig : String) (ts : Nat) (proposer : Nat) (txs : List Tx) : Option Block :=
-  let c := d.raw
+def mkBlockOn (c : ChainSt) (sroot : List Nat) (hsel prev root sig : String) (ts : Nat) (proposer : Nat) (txs : List Tx) : Option Block :=
   let height := match hsel with | "ok" => some (c.height + 1) | "same" => some c.height | "skip" => some (c.height + 2) | _ => none
   let prevHash := match prev with | "ok" => some c.tip | "bad" => some (c.tip ++ [1]) | _ => none
   let txr := match root with | "ok" => some (txRoot C txs) | "zero" => some C.zero | "bad" => some (txRoot C txs ++ [1]) | _ => none
   match height, prevHash, txr with
   | some height, some prevHash, some txr =>
-    let h0 : Header := { height := height, prevHash := prevHash, txRoot := txr, stateRoot := C.zero, embedding := [],
+    let h0 : Header := { height := height, prevHash := prevHash, txRoot := txr, stateRoot := sroot, embedding := [],
                          codes := [], timestamp := ts, proposer := [proposer], signature := [] }
     let sg := match sig with
       | "ok" => some (C.sign proposer h0.bytes)
@@ -141,6 +171,14 @@ def mkRawBlock (d : Drv) (hsel prev root sig : String) (ts : Nat) (proposer : Na
       | _ => none
     sg.map fun sg => { header := { h0 with signature := sg }, txs := txs, sigs := [] }
   | _, _, _ => none
+
+def mkRawBlock (d : Drv) (hsel prev root sig : String) (ts : Nat) (proposer : Nat) (txs : List Tx) : Option Block :=
+  mkBlockOn d.raw C.zero hsel prev root sig ts proposer txs
+
+def showApplyErr : Option ApplyErr → String
+  | none => "ok"
+  | some .stateRoot => "err state_root"
+  | some (.append e) => "err " ++ showAppendErr e
 
 def chainStep (d : Drv) (line : String) : Drv × String :=
   let bad := (d, "bad-op")
@@ -159,6 +197,26 @@ def chainStep (d : Drv) (line : String) : Drv × String :=
       let r := addOp d.node w (.del k)
       ({ d with node := r.1 }, if r.2 then "ok" else "err not_active")
     | _, _ => bad
+  | ["cas", w, k, e, v] => match w.toNat?, k.toNat?, v.toNat? with
+    | some w, some k, some v =>
+      match (if e = "-" then some none else e.toNat?.map some : Option (Option Nat)) with
+      | some e =>
+        let r := addOp d.node w (.cas k e v)
+        ({ d with node := r.1 }, if r.2 then "ok" else "err not_active")
+      | none => bad
+    | _, _, _ => bad
+  -- restart: new `TensorChain` object over the same store + `initialize()`
+  | ["reopen", ts] => match ts.toNat? with
+    | some ts =>
+      let n := reopenNode C d.node ts
+      ({ d with node := n }, showState n.cfg.registry n.chain)
+    | none => bad
+  | ["history", k] => match k.toNat? with
+    | some k => (d, showHistory (history d.node.chain k))
+    | none => bad
+  | ["active"] => (d, toString d.node.active.length)
+  | ["meta"] => (d, showMeta d.node.chain.store)
+  | ["cmeta"] => (d, showMeta d.raw.store)
   | ["dir", w, dd] => match w.toNat?, dd.toNat? with
     | some w, some dd => ({ d with node := setDir d.node w dd }, "ok")
     | _, _ => bad
@@ -191,10 +249,7 @@ def chainStep (d : Drv) (line : String) : Drv × String :=
     | some w =>
       match findWs d.node.wss w with
       | some ws =>
-        let ops := ws.ops.map fun t => match t with
-          | .put k _ => s!"put:{k}"
-          | .del k => s!"del:{k}"
-        (d, s!"apply={showList ops} root=scan append=block:{d.node.chain.height + 1}..meta")
+        (d, s!"apply={showList (traceOps d.node.chain.store ws.ops)} root=scan append=block:{d.node.chain.height + 1}..meta")
       | none => (d, "nows")
     | none => bad
   -- raw chain stream
@@ -212,6 +267,19 @@ def chainStep (d : Drv) (line : String) : Drv × String :=
         | .error e => (d, "err " ++ showAppendErr e)
       | none => bad
     | _, _, _ => bad
+  -- a new `Chain` object over the (possibly tampered) store + `initialize()`
+  | ["copen", ts] => match ts.toNat? with
+    | some ts =>
+      let c := openChain C d.raw.store [1] ts
+      ({ d with raw := c }, showState d.rawReg c)
+    | none => bad
+  | ["setmeta", h] => match h.toNat? with
+    | some h => ({ d with raw := { d.raw with store := sput d.raw.store .chainMeta (.height h) } }, "ok")
+    | none => bad
+  | ["delmeta"] => ({ d with raw := { d.raw with store := sdel d.raw.store .chainMeta } }, "ok")
+  | ["chistory", k] => match k.toNat? with
+    | some k => (d, showHistory (history d.raw k))
+    | none => bad
   | ["cverify"] => (d, showVerify (verifyChain C d.rawReg d.raw))
   | ["cverify_old"] => (d, showVerify (verifyChainOld C d.rawReg d.raw))
   | ["cstate"] => (d, showState d.rawReg d.raw)
@@ -244,8 +312,54 @@ def chainStep (d : Drv) (line : String) : Drv × String :=
   -- replay stream
   | ["rinit", shared, ts1, ts2] => match shared.toNat?, ts1.toNat?, ts2.toNat? with
     | some sh, some t1, some t2 =>
-      ({ d with reps := [initReplica C (sh != 0) [1] t1, initReplica C (sh != 0) [1] t2] }, "ok")
+      ({ d with reps := [initReplica C (sh != 0) [1] t1, initReplica C (sh != 0) [1] t2], repReg := none }, "ok")
     | _, _, _ => bad
+  -- `n` replicas with separate state stores, bootstrapped from one genesis block; with or without validator keys
+  | ["rnew", n, reg, ts] => match n.toNat?, reg.toNat?, ts.toNat? with
+    | some n, some reg, some ts =>
+      ({ d with reps := List.replicate n (initReplica C false [1] ts), repReg := if reg != 0 then some theReg else none,
+                lastBlock := none }, "ok")
+    | _, _, _ => bad
+  -- a block built by the proposer (replica `p`): chain head and state root taken from ITS chain and state store
+  -- (`sroot`: ok = root of its state with the transactions applied, bad = that root altered, stale = root of its
+  -- state without them)
+  | ["rblock", p, hsel, prev, root, sroot, sig, ts, prop, txs] => match p.toNat?, ts.toNat?, prop.toNat?, parseTxs txs with
+    | some p, some ts, some prop, some txs =>
+      match d.reps[p]? with
+      | some r =>
+        let good := stateRoot C (applyTxs r.stateStore txs)
+        let sr := match sroot with
+          | "ok" => some good
+          | "bad" => some (good ++ [1])
+          | "stale" => some (stateRoot C r.stateStore)
+          | _ => none
+        match sr with
+        | some sr =>
+          match mkBlockOn r.chain sr hsel prev root sig ts prop txs with
+          | some b => ({ d with lastBlock := some b }, "ok")
+          | none => bad
+        | none => bad
+      | none => bad
+    | _, _, _, _ => bad
+  -- `TensorStateMachine::apply_block` of the last built block on replica `i`
+  | ["rapply", i] => match i.toNat?, d.lastBlock with
+    | some i, some b =>
+      match d.reps[i]? with
+      | some r =>
+        let q := applyBlock C d.repReg r b
+        ({ d with reps := setNth d.reps i q.1 }, showApplyErr q.2)
+      | none => bad
+    | _, _ => bad
+  | ["rstate", i] => match i.toNat? with
+    | some i =>
+      match d.reps[i]? with
+      | some r => (d, s!"h={r.chain.height} verify={showVerify (verifyChain C d.repReg r.chain)} blocks={showNats (blocksPresent r.chain.store)} data={showList (dataImage r.stateStore)}")
+      | none => bad
+    | none => bad
+  | ["rrootsall"] =>
+    (d, match d.reps with
+      | [] => "bad-op"
+      | a :: rest => if rest.all fun b => stateRoot C a.stateStore = stateRoot C b.stateStore then "roots equal" else "roots differ")
   | ["rroots"] =>
     (d, match d.reps with
       | [a, b] => if stateRoot C a.stateStore = stateRoot C b.stateStore then "roots equal" else "roots differ"
